@@ -70,7 +70,7 @@ Proof. exact functor_noreduce_congruent. Qed.
 Print Assumptions C14_functor_noreduce_congruent.
 
 (* Poly1CRT over GF(p), p prime, points pairwise distinct mod p: RnsToRing has canonical coefficients, degree below the
-   number of points and takes the given values (RingToRns o RnsToRing = id).  Partial: the full statement
-   Poly_crt_full_stmt (ProofsPoly.v) adds uniqueness of the interpolant, which is not proved. *)
-Theorem C14_poly_interpolation_partial : Poly_interpolation_stmt.   Proof. exact poly_interpolation. Qed.
-Print Assumptions C14_poly_interpolation_partial.
+   number of points and takes the given values (RingToRns o RnsToRing = id); it is the ONLY such polynomial; and
+   RnsToRing o RingToRns = id on canonical polynomials of degree below the number of points. *)
+Theorem C14_poly_crt : Poly_crt_full_stmt.   Proof. exact poly_crt_full. Qed.
+Print Assumptions C14_poly_crt.
